@@ -835,7 +835,9 @@ class SegmentationImage:
 
         old_slices = self.__dict__.get('slices', None)
         dtype = self.data.dtype  # keep the original dtype
-        new_labels = np.arange(self.nlabels, dtype=dtype) + start_label
+        # astype keeps the dtype of the segmentation array even if
+        # start_label is a numpy integer of a larger type
+        new_labels = (np.arange(self.nlabels) + start_label).astype(dtype)
         new_label_map = np.zeros(self.max_label + 1, dtype=dtype)
         new_label_map[self.labels] = new_labels
 
